@@ -433,6 +433,7 @@ impl SyncHooks for Sched {
 
 // ------------------------------------------------------------------------------------ executions
 
+#[derive(Clone, Debug)]
 pub struct ExecResult {
     pub trace: Vec<Point>,
     /// for each choice point: does another thread operate on the same object later in this run?
@@ -564,7 +565,19 @@ pub fn run_execution(prefix: &[usize], bodies: Vec<Box<dyn FnOnce() + Send>>) ->
         grew: g.grew,
         diverged: g.diverged,
     };
+    *LAST_EXEC.lock().unwrap_or_else(|e| e.into_inner()) = Some(r.clone());
     r
+}
+
+static LAST_EXEC: Mutex<Option<ExecResult>> = Mutex::new(None);
+
+/// the result of the most recent execution (for a caller whose post-processing panicked)
+pub fn take_last_exec() -> Option<ExecResult> {
+    LAST_EXEC.lock().unwrap_or_else(|e| e.into_inner()).take()
+}
+
+pub fn clear_last_exec() {
+    *LAST_EXEC.lock().unwrap_or_else(|e| e.into_inner()) = None;
 }
 
 /// call right before building the database of an execution: object ids restart, so that the same
